@@ -426,7 +426,8 @@ func (bs *BinarySpray) ReportFailure(bp BundleDescriptor, sender cla.Convergence
 		return
 	}
 	verifhook.At("routing.binaryspray.reportfailure")
-	binarySprayBlock.SetCopies(metadata.remainingCopies + binarySprayBlock.RemainingCopies())
+	metadata.remainingCopies = metadata.remainingCopies + binarySprayBlock.RemainingCopies()
+	binarySprayBlock.SetCopies(metadata.remainingCopies)
 
 	for i := 0; i < len(metadata.sent); i++ {
 		if metadata.sent[i] == sender.GetPeerEndpointID() {
